@@ -56,6 +56,11 @@ def gen(ls, tier, rng):
             if tier != "thorough" and isinstance(rs, slice) and isinstance(cs, slice) and rng.random() < 7 / 8: continue
             yield R, (rs if cs is None else (rs, cs))
     yield R, ()
+    # integers (and one-element lists) further out of range than one past the end: refused, never wrapped a second time
+    for i in sorted({-nr - 2, -nr - 3, -2 * nr, -2 * nr + 1, -2 * nr - 1, -3 * nr, nr + 1, 2 * nr, 2 * nr + 1} - set(range(-nr - 1, nr + 1))):
+        for cs in (None, 0, -1, slice(None), slice(1, None), slice(None, None, -1)):
+            yield R, (i if cs is None else (i, cs))
+            yield R, ([i] if cs is None else ([i], cs))
     # bounds and steps at the edge of the 32-bit range (legal in both index-width configurations)
     M = 2 ** 31 - 1
     HB = [None, M, -M, -M - 1, M - 1, 2]
